@@ -37,7 +37,7 @@ Definition binary_chain (toks : list token_type) : bool :=
 
 (* ---- trees with node indices ---- *)
 Inductive ntree : Type :=
-| NAtom (id : nat) (d : definition) (tok : nat)
+| NAtom (id : nat) (d : definition) (tok : nat)       (* [d]: the definition the node stores *)
 | NPre (id : nat) (d : definition) (tok : nat) (arg : ntree)
 | NSuf (id : nat) (d : definition) (tok : nat) (arg : ntree)
 | NBin (id : nat) (d : definition) (tok : option nat) (l r : ntree)
@@ -45,7 +45,7 @@ Inductive ntree : Type :=
 
 Fixpoint erase (t : ntree) : rtree :=
   match t with
-  | NAtom _ d k => RAtom d k
+  | NAtom _ d k => RAtom (norm_atom d) k
   | NPre _ d k a => RPre d k (erase a)
   | NSuf _ d k a => RSuf d k (erase a)
   | NBin _ d k l r => RBin d k (erase l) (erase r)
@@ -108,6 +108,16 @@ Fixpoint close_group (fs : list frame) (t : ntree) : option (list frame * ntree)
 
 Definition is_fgroup (f : frame) : bool := match f with FGroup _ _ => true | _ => false end.
 
+(* the definition a value node stores: an identifier directly to the right of the access
+   operator `.` is stored as Property *)
+Definition atom_store (d : definition) (fs : list frame) : definition :=
+  if definition_eqb d D_Identifier then
+    match fs with
+    | f :: _ => if definition_eqb (frame_def f) D_Access then D_Property else d
+    | [] => d
+    end
+  else d.
+
 (* machine state: open frames and the operand just completed ([None]: an operand is
    expected).  [n] is the index the next node gets: every item but a closing bracket
    makes one node. *)
@@ -115,7 +125,7 @@ Definition spine_state : Type := (list frame * option ntree)%type.
 
 Definition spine_step (it : item) (n : nat) (st : spine_state) : option spine_state :=
   match it, st with
-  | IValue d k, (fs, None) => Some (fs, Some (NAtom n d k))
+  | IValue d k, (fs, None) => Some (fs, Some (NAtom n (atom_store d fs) k))
   | IPrefix d k, (fs, None) =>
       match ref_rank d with Some _ => Some (FPre n d k :: fs, None) | None => None end
   | IBinary d k, (fs, Some t) =>
